@@ -14,6 +14,7 @@ import Driver.Migrate
 import Driver.Archive
 import Driver.SseClient
 import Driver.Resource
+import Driver.SqliteConn
 
 def main (args : List String) : IO UInt32 := do
   let stdin ← IO.getStdin
@@ -33,4 +34,5 @@ def main (args : List String) : IO UInt32 := do
   | ["archive"] => Drv.loop stdin Drv.Archive.step (); return 0
   | ["sseclient"] => Drv.loop stdin Drv.SseClient.step (); return 0
   | ["resource"] => Drv.loop stdin Drv.Resource.step {}; return 0
+  | ["sqliteconn"] => Drv.loop stdin Drv.SqliteConn.step {}; return 0
   | _ => IO.eprintln "usage: wfdriver <model>"; return 2
